@@ -41,6 +41,11 @@ def obligations(tier):
                       group='object-valued', timeout=T,
                       bound=f'two Port objects, exclusive key from 3 constants, port from 3 constants; 3 scopes; mode {mode} '
                             f'(finite domain: objects are hashed, symbolic keys would be realised)'))
+    obs.append(Ob(id='poly_object_ops', module=M, func='poly_object_ops', params='i0: int, i1: int, k0: int, k1: int, sc: int',
+                  pre=['0 <= sc <= 2', '0 <= i0 <= 2 and 0 <= i1 <= 2 and 0 <= k0 <= 1 and 0 <= k1 <= 1'],
+                  group='object-valued', timeout=T,
+                  bound='two INSERTs of provider objects: subtype (2 concrete subtypes of a parent that declares the exclusive '
+                        'field) x name (3 constants) each; 3 scopes'))
     obs.append(Ob(id='bad_object', module=M, func='bad_object', params='d0: str, q0: int, kind: int',
                   pre=['0 <= kind <= 3', f'len(d0) <= {L}'], group='object-valued', timeout=T, bound='4 kinds of ill-formed object'))
     obs.append(Ob(id='unknown_setting', module=M, func='unknown_setting', params='vi: int, oc: int', pre=['0 <= oc <= 1'],
